@@ -25,6 +25,20 @@ theorem upd_other {α : Type} (f : Nat → α) (i j : Nat) (a : α) (h : j ≠ i
 @[simp] theorem setPc_ghist (s : Sys V E) (t : Tid) (pc : PC V E) : (s.setPc t pc).ghist = s.ghist := rfl
 @[simp] theorem setEntry_slock (s : Sys V E) (p : Pid) (e : Entry V E) : (s.setEntry p e).slock = s.slock := rfl
 @[simp] theorem deliver_slock (s : Sys V E) (k : Cid) (p : Pid) (m : Msg V E) : (s.deliver k p m).slock = s.slock := rfl
+@[simp] theorem setPc_act (s : Sys V E) (t : Tid) (pc : PC V E) : (s.setPc t pc).act = s.act := rfl
+@[simp] theorem setPc_snapped (s : Sys V E) (t : Tid) (pc : PC V E) : (s.setPc t pc).snapped = s.snapped := rfl
+@[simp] theorem setEntry_act (s : Sys V E) (p : Pid) (e : Entry V E) : (s.setEntry p e).act = s.act := rfl
+@[simp] theorem setEntry_snapped (s : Sys V E) (p : Pid) (e : Entry V E) : (s.setEntry p e).snapped = s.snapped := rfl
+@[simp] theorem deliver_act (s : Sys V E) (k : Cid) (p : Pid) (m : Msg V E) : (s.deliver k p m).act = s.act := rfl
+@[simp] theorem deliver_snapped (s : Sys V E) (k : Cid) (p : Pid) (m : Msg V E) :
+    (s.deliver k p m).snapped = s.snapped := rfl
+@[simp] theorem markSnapped_thr (s : Sys V E) (k : Cid) (p : Pid) : (s.markSnapped k p).thr = s.thr := rfl
+@[simp] theorem markSnapped_hist (s : Sys V E) (k : Cid) (p : Pid) : (s.markSnapped k p).hist = s.hist := rfl
+@[simp] theorem markSnapped_ghist (s : Sys V E) (k : Cid) (p : Pid) : (s.markSnapped k p).ghist = s.ghist := rfl
+@[simp] theorem markSnapped_logs (s : Sys V E) (k : Cid) (p : Pid) : (s.markSnapped k p).logs = s.logs := rfl
+@[simp] theorem markSnapped_entries (s : Sys V E) (k : Cid) (p : Pid) : (s.markSnapped k p).entries = s.entries := rfl
+@[simp] theorem markSnapped_lock (s : Sys V E) (k : Cid) (p : Pid) : (s.markSnapped k p).lock = s.lock := rfl
+@[simp] theorem markSnapped_act (s : Sys V E) (k : Cid) (p : Pid) : (s.markSnapped k p).act = s.act := rfl
 @[simp] theorem setPc_pc (s : Sys V E) (t : Tid) (pc : PC V E) : ((s.setPc t pc).thr t).pc = pc := by
   simp [Sys.setPc]
 theorem setPc_pc_other (s : Sys V E) (t t' : Tid) (pc : PC V E) (h : t' ≠ t) :
@@ -70,9 +84,14 @@ def plog (s : Sys V E) (k : Cid) (p : Pid) : List (Msg V E) := (s.logs k p).map 
 def seqRun (c : Cfg V E) (init : Pid → Entry V E) (s : Sys V E) (p : Pid) : Run V E :=
   runR c.o (init p) (s.hist p)
 
+/-- connection `k` was subscribed to `p` before the run started and has not been sent a snapshot for it since:
+it has received exactly the updates of `p` -/
+def Stat (c : Cfg V E) (s : Sys V E) (p : Pid) (k : Cid) : Prop :=
+  k ∈ c.conns ∧ c.act0 k p = true ∧ s.snapped k p = false
+
 /-- parameter `p` is outside any critical section: entry and logs are those of the sequential run -/
 def Clean (c : Cfg V E) (init : Pid → Entry V E) (s : Sys V E) (p : Pid) : Prop :=
-  s.entries p = (seqRun c init s p).entry ∧ ∀ k ∈ c.conns, plog s k p = (seqRun c init s p).msgs
+  s.entries p = (seqRun c init s p).entry ∧ ∀ k, Stat c s p k → plog s k p = (seqRun c init s p).msgs
 
 def pcPid : PC V E → Option Pid
   | .idle => none
@@ -86,129 +105,200 @@ def pcPid : PC V E → Option Pid
   | .built p _ _ _ => some p
   | .sending p _ _ _ _ => some p
   | .leaving p _ _ => some p
+  | .actD _ _ => none
+  | .actS _ _ => none
+  | .actR _ _ => none
+  | .snap _ _ => none
+  | .actE => none
 
-/-- inside the critical section: `e0`, `m0` = entry and log when the lock was taken, `cur`, `lg` = now -/
-def Mid (c : Cfg V E) (e0 : Entry V E) (m0 : List (Msg V E)) (cur : Entry V E) (lg : Cid → List (Msg V E)) :
-    PC V E → Prop
-  | .idle => False
-  | .locked _ _ _ => cur = e0 ∧ ∀ k ∈ c.conns, lg k = m0
-  | .timed _ _ _ => cur = e0 ∧ ∀ k ∈ c.conns, lg k = m0
-  | .compared _ _ v chg => cur = e0 ∧ chg = changed c.o e0 v ∧ ∀ k ∈ c.conns, lg k = m0
-  | .stored _ _ v chg => cur = storeValue e0 (.val v) ∧ chg = changed c.o e0 v ∧ ∀ k ∈ c.conns, lg k = m0
-  | .go _ now r => cur = storeValue e0 r ∧ emits c.o e0 now r = true ∧ ∀ k ∈ c.conns, lg k = m0
-  | .stamped _ now r => cur = stamp (storeValue e0 r) now ∧ emits c.o e0 now r = true ∧ ∀ k ∈ c.conns, lg k = m0
-  | .errset _ now r => cur = commit (storeValue e0 r) now r ∧ emits c.o e0 now r = true ∧ ∀ k ∈ c.conns, lg k = m0
-  | .built _ now r m => cur = commit (storeValue e0 r) now r ∧ emits c.o e0 now r = true ∧ m = mkMsg cur ∧
-      ∀ k ∈ c.conns, lg k = m0
-  | .sending _ now r m rest => cur = commit (storeValue e0 r) now r ∧ emits c.o e0 now r = true ∧ m = mkMsg cur ∧
-      ∃ done, c.conns = done ++ rest ∧ (∀ k ∈ done, lg k = m0 ++ [m]) ∧ (∀ k ∈ rest, lg k = m0)
-  | .leaving _ now r => cur = (announceR c.o e0 now r).entry ∧
-      ∀ k ∈ c.conns, lg k = m0 ++ (announceR c.o e0 now r).msg.toList
+/-- the thread is between `acquire` and `release` of the module's update lock -/
+def inU : PC V E → Bool
+  | .idle => false
+  | .actD _ _ => false
+  | .actS _ _ => false
+  | .actR _ _ => false
+  | .actE => false
+  | _ => true
 
-/-- the thread is inside `broadcast_event`'s `with self._subscription_lock` -/
-def pcS : PC V E → Bool
+/-- the thread holds the dispatcher's subscription lock -/
+def holdsS : PC V E → Bool
   | .sending _ _ _ _ _ => true
+  | .actS _ _ => true
   | _ => false
 
+theorem inU_of_pcPid {pc : PC V E} {p : Pid} (h : pcPid pc = some p) : inU pc = true := by
+  cases pc <;> simp [pcPid] at h <;> rfl
+
+/-- inside the funnel: `e0`, `m0` = entry and log when the lock was taken, `cur`, `lg` = now; `st k` = connection
+`k` is one of those that receive exactly the updates -/
+def Mid (c : Cfg V E) (st : Cid → Prop) (e0 : Entry V E) (m0 : List (Msg V E)) (cur : Entry V E)
+    (lg : Cid → List (Msg V E)) : PC V E → Prop
+  | .locked _ _ _ => cur = e0 ∧ ∀ k, st k → lg k = m0
+  | .timed _ _ _ => cur = e0 ∧ ∀ k, st k → lg k = m0
+  | .compared _ _ v chg => cur = e0 ∧ chg = changed c.o e0 v ∧ ∀ k, st k → lg k = m0
+  | .stored _ _ v chg => cur = storeValue e0 (.val v) ∧ chg = changed c.o e0 v ∧ ∀ k, st k → lg k = m0
+  | .go _ now r => cur = storeValue e0 r ∧ emits c.o e0 now r = true ∧ ∀ k, st k → lg k = m0
+  | .stamped _ now r => cur = stamp (storeValue e0 r) now ∧ emits c.o e0 now r = true ∧ ∀ k, st k → lg k = m0
+  | .errset _ now r => cur = commit (storeValue e0 r) now r ∧ emits c.o e0 now r = true ∧ ∀ k, st k → lg k = m0
+  | .built _ now r m => cur = commit (storeValue e0 r) now r ∧ emits c.o e0 now r = true ∧ m = mkMsg cur ∧
+      ∀ k, st k → lg k = m0
+  | .sending _ now r m rest => cur = commit (storeValue e0 r) now r ∧ emits c.o e0 now r = true ∧ m = mkMsg cur ∧
+      ∃ done, (done ++ rest).Nodup ∧ (∀ k, st k → k ∈ done ++ rest) ∧
+        (∀ k ∈ done, st k → lg k = m0 ++ [m]) ∧ (∀ k ∈ rest, st k → lg k = m0)
+  | .leaving _ now r => cur = (announceR c.o e0 now r).entry ∧
+      ∀ k, st k → lg k = m0 ++ (announceR c.o e0 now r).msg.toList
+  | _ => False
+
 structure Inv (c : Cfg V E) (init : Pid → Entry V E) (s : Sys V E) : Prop where
-  slFree : s.lock = none → s.slock = none
-  slOwner : ∀ t, s.lock = some t → s.slock = if pcS (s.thr t).pc then some t else none
+  slHeld : ∀ t, holdsS (s.thr t).pc = true → s.slock = some t
+  actMono : ∀ k p, c.act0 k p = true → s.act k p = true
   seenOk : ∀ k p, ∀ d ∈ s.logs k p, d.msg.ve = d.seen
-  unlocked : s.lock = none → (∀ t, (s.thr t).pc = .idle) ∧ ∀ p, Clean c init s p
-  locked : ∀ t, s.lock = some t → (∀ t', t' ≠ t → (s.thr t').pc = .idle) ∧
-    ∃ p, pcPid (s.thr t).pc = some p ∧ (∀ q, q ≠ p → Clean c init s q) ∧
-      Mid c (seqRun c init s p).entry (seqRun c init s p).msgs (s.entries p) (fun k => plog s k p) (s.thr t).pc
+  owner : ∀ t, inU (s.thr t).pc = true → s.lock = some t
+  unlocked : s.lock = none → ∀ p, Clean c init s p
+  locked : ∀ t, s.lock = some t → inU (s.thr t).pc = true ∧
+    (∀ q, pcPid (s.thr t).pc ≠ some q → Clean c init s q) ∧
+    (∀ p, pcPid (s.thr t).pc = some p →
+      Mid c (Stat c s p) (seqRun c init s p).entry (seqRun c init s p).msgs (s.entries p) (fun k => plog s k p)
+        (s.thr t).pc)
 
 theorem inv_init (c : Cfg V E) (init : Pid → Entry V E) (progs : Tid → List (Op V E)) (clock : Int) :
-    Inv c init (Sys.init init progs clock) := by
-  refine ⟨fun _ => rfl, fun t ht => by simp [Sys.init] at ht, ?_, ?_, ?_⟩
+    Inv c init (Sys.init init progs clock c.act0) := by
+  refine ⟨fun t ht => by simp [Sys.init, holdsS] at ht, fun k p h => h, ?_, fun t ht => by simp [Sys.init, inU] at ht,
+    ?_, fun t ht => by simp [Sys.init] at ht⟩
   · intro k p d hd; simp [Sys.init] at hd
-  · intro _; exact ⟨fun t => rfl, fun p => ⟨by simp [Sys.init, seqRun, runR], fun k _ => by simp [Sys.init, plog, seqRun, runR]⟩⟩
-  · intro t ht; simp [Sys.init] at ht
+  · intro _ p; exact ⟨by simp [Sys.init, seqRun, runR], fun k _ => by simp [Sys.init, plog, seqRun, runR]⟩
 
-/-- a thread that is not idle owns the lock -/
+/-- a thread inside the update lock owns it -/
 theorem owner_of_busy {c : Cfg V E} {init : Pid → Entry V E} {s : Sys V E} (hi : Inv c init s) (t : Tid)
-    (hb : (s.thr t).pc ≠ .idle) : s.lock = some t := by
-  cases hl : s.lock with
-  | none => exact absurd ((hi.unlocked hl).1 t) hb
-  | some t0 =>
-    by_cases h : t = t0
-    · rw [h]
-    · exact absurd ((hi.locked t0 hl).1 t h) hb
+    (hb : inU (s.thr t).pc = true) : s.lock = some t := hi.owner t hb
 
-/-- what the invariant says about the owner -/
+/-- what the invariant says about a thread inside the funnel -/
 theorem inv_mid {c : Cfg V E} {init : Pid → Entry V E} {s : Sys V E} (hi : Inv c init s) (t : Tid) (p : Pid)
-    (hb : (s.thr t).pc ≠ .idle) (hp : pcPid (s.thr t).pc = some p) :
-    s.lock = some t ∧ (∀ t', t' ≠ t → (s.thr t').pc = .idle) ∧ (∀ q, q ≠ p → Clean c init s q) ∧
-    Mid c (seqRun c init s p).entry (seqRun c init s p).msgs (s.entries p) (fun k => plog s k p) (s.thr t).pc := by
-  have hl := owner_of_busy hi t hb
-  obtain ⟨h1, p', hp', h2, h3⟩ := hi.locked t hl
-  rw [hp] at hp'
-  cases hp'
-  exact ⟨hl, h1, h2, h3⟩
+    (hp : pcPid (s.thr t).pc = some p) :
+    s.lock = some t ∧ (∀ q, q ≠ p → Clean c init s q) ∧
+    Mid c (Stat c s p) (seqRun c init s p).entry (seqRun c init s p).msgs (s.entries p) (fun k => plog s k p)
+      (s.thr t).pc := by
+  have hl := hi.owner t (inU_of_pcPid hp)
+  obtain ⟨_, h2, h3⟩ := hi.locked t hl
+  refine ⟨hl, fun q hq => h2 q ?_, h3 p hp⟩
+  rw [hp]; intro h; exact hq (Option.some.inj h).symm
 
-/-- a step inside the critical section that touches only parameter `p` -/
+/-! ### the subscription lock -/
+
+theorem slHeld_frame {s s' : Sys V E} (h : ∀ t, holdsS (s.thr t).pc = true → s.slock = some t) (t : Tid)
+    (hsl : s'.slock = s.slock) (hoth : ∀ t', t' ≠ t → (s'.thr t').pc = (s.thr t').pc)
+    (hme : holdsS (s'.thr t).pc = true → holdsS (s.thr t).pc = true) :
+    ∀ t', holdsS (s'.thr t').pc = true → s'.slock = some t' := by
+  intro t' ht'
+  rw [hsl]
+  by_cases htt : t' = t
+  · rw [htt] at ht' ⊢; exact h t (hme ht')
+  · rw [hoth t' htt] at ht'; exact h t' ht'
+
+theorem slHeld_acq {s s' : Sys V E} (h : ∀ t, holdsS (s.thr t).pc = true → s.slock = some t) (t : Tid)
+    (hfree : s.slock = none) (hsl : s'.slock = some t) (hoth : ∀ t', t' ≠ t → (s'.thr t').pc = (s.thr t').pc) :
+    ∀ t', holdsS (s'.thr t').pc = true → s'.slock = some t' := by
+  intro t' ht'
+  by_cases htt : t' = t
+  · rw [htt]; exact hsl
+  · rw [hoth t' htt] at ht'
+    have := h t' ht'
+    rw [hfree] at this; cases this
+
+theorem slHeld_rel {s s' : Sys V E} (h : ∀ t, holdsS (s.thr t).pc = true → s.slock = some t) (t : Tid)
+    (hown : s.slock = some t) (hoth : ∀ t', t' ≠ t → (s'.thr t').pc = (s.thr t').pc)
+    (hme : holdsS (s'.thr t).pc = false) :
+    ∀ t', holdsS (s'.thr t').pc = true → s'.slock = some t' := by
+  intro t' ht'
+  by_cases htt : t' = t
+  · rw [htt, hme] at ht'; cases ht'
+  · rw [hoth t' htt] at ht'
+    have := h t' ht'
+    rw [hown] at this
+    exact absurd (Option.some.inj this).symm htt
+
+/-! ### frames -/
+
+theorem clean_frame {c : Cfg V E} {init : Pid → Entry V E} {s s' : Sys V E} (p : Pid)
+    (he : s'.entries = s.entries) (hl : s'.logs = s.logs) (hh : s'.hist = s.hist) (hsn : s'.snapped = s.snapped) :
+    Clean c init s' p ↔ Clean c init s p := by
+  unfold Clean Stat seqRun plog; rw [he, hl, hh, hsn]
+
+/-- a step of thread `t` outside the update lock that touches only the other locks, the subscriptions and `t` itself -/
+theorem inv_outside {c : Cfg V E} {init : Pid → Entry V E} {s : Sys V E} (hi : Inv c init s) (t : Tid)
+    (a d sl : Option Tid) (ac : Cid → Pid → Bool) (th : Thread V E)
+    (hu : inU (s.thr t).pc = false) (hu' : inU th.pc = false)
+    (hS : ∀ t', holdsS ((upd s.thr t th) t').pc = true → sl = some t')
+    (hA : ∀ k p, c.act0 k p = true → ac k p = true) :
+    Inv c init { s with alock := a, dlock := d, slock := sl, act := ac, thr := upd s.thr t th } := by
+  have hoth : ∀ t', t' ≠ t → (upd s.thr t th) t' = s.thr t' := fun t' h => upd_other _ _ _ _ h
+  refine ⟨hS, hA, hi.seenOk, ?_, ?_, ?_⟩
+  · intro t' ht'
+    by_cases htt : t' = t
+    · rw [htt] at ht'; simp only [upd_same] at ht'; rw [hu'] at ht'; cases ht'
+    · simp only [hoth t' htt] at ht'; exact hi.owner t' ht'
+  · intro hl p; exact (clean_frame p rfl rfl rfl rfl).2 (hi.unlocked hl p)
+  · intro t0 hl
+    obtain ⟨h1, h2, h3⟩ := hi.locked t0 hl
+    have hne : t0 ≠ t := by intro h; rw [h, hu] at h1; cases h1
+    simp only [hoth t0 hne]
+    exact ⟨h1, fun q hq => (clean_frame q rfl rfl rfl rfl).2 (h2 q hq), h3⟩
+
+/-- a step inside the funnel that touches only parameter `p` -/
 theorem inv_inner {c : Cfg V E} {init : Pid → Entry V E} {s s' : Sys V E} (hi : Inv c init s) (t : Tid) (p : Pid)
     (hlk : s.lock = some t)
-    (hidle : ∀ t', t' ≠ t → (s.thr t').pc = .idle)
     (hclean : ∀ q, q ≠ p → Clean c init s q)
-    (hl : s'.lock = some t) (hh : s'.hist = s.hist)
-    (hsl : s'.slock = if pcS (s'.thr t).pc then some t else none)
+    (hl : s'.lock = some t) (hh : s'.hist = s.hist) (hsn : s'.snapped = s.snapped) (hact : s'.act = s.act)
+    (hS : ∀ t', holdsS (s'.thr t').pc = true → s'.slock = some t')
     (hthr : ∀ t', t' ≠ t → (s'.thr t').pc = (s.thr t').pc)
     (hent : ∀ q, q ≠ p → s'.entries q = s.entries q)
     (hlog : ∀ k q, q ≠ p → s'.logs k q = s.logs k q)
     (hpc : pcPid (s'.thr t).pc = some p)
     (hseen : ∀ k, ∀ d ∈ s'.logs k p, d.msg.ve = d.seen)
-    (hmid : Mid c (seqRun c init s p).entry (seqRun c init s p).msgs (s'.entries p) (fun k => plog s' k p)
+    (hmid : Mid c (Stat c s p) (seqRun c init s p).entry (seqRun c init s p).msgs (s'.entries p) (fun k => plog s' k p)
       (s'.thr t).pc) : Inv c init s' := by
-  have _ := hlk
-  refine ⟨(fun h => by rw [hl] at h; cases h), (fun t0 ht0 => by rw [hl] at ht0; cases ht0; exact hsl), ?_, ?_, ?_⟩
+  refine ⟨hS, by rw [hact]; exact hi.actMono, ?_, ?_, (fun h => by rw [hl] at h; cases h), ?_⟩
   · intro k q d hd
     by_cases hq : q = p
     · subst hq; exact hseen k d hd
     · rw [hlog k q hq] at hd; exact hi.seenOk k q d hd
-  · intro h; rw [hl] at h; cases h
+  · intro t' ht'
+    rw [hl]
+    by_cases htt : t' = t
+    · rw [htt]
+    · rw [hthr t' htt] at ht'
+      have := hi.owner t' ht'
+      rw [hlk] at this; exact this
   · intro t0 ht0
     rw [hl] at ht0; cases ht0
-    refine ⟨fun t' ht' => by rw [hthr t' ht']; exact hidle t' ht', p, hpc, ?_, ?_⟩
+    refine ⟨inU_of_pcPid hpc, ?_, ?_⟩
     · intro q hq
-      have := hclean q hq
-      unfold Clean seqRun plog at this ⊢
-      rw [hh, hent q hq]
+      have hqp : q ≠ p := by intro h; rw [h] at hq; exact hq hpc
+      have := hclean q hqp
+      unfold Clean Stat seqRun plog at this ⊢
+      rw [hh, hent q hqp, hsn]
       refine ⟨this.1, fun k hk => ?_⟩
-      rw [hlog k q hq]; exact this.2 k hk
-    · have : seqRun c init s' p = seqRun c init s p := by unfold seqRun; rw [hh]
-      rw [this]; exact hmid
-
+      rw [hlog k q hqp]; exact this.2 k hk
+    · intro p' hp'
+      rw [hpc] at hp'; cases hp'
+      have h1 : seqRun c init s' p = seqRun c init s p := by unfold seqRun; rw [hh]
+      have h2 : Stat c s' p = Stat c s p := by unfold Stat; rw [hsn]
+      rw [h1, h2]; exact hmid
 
 /-! ### preservation -/
-
-theorem clean_frame {c : Cfg V E} {init : Pid → Entry V E} {s s' : Sys V E} (p : Pid)
-    (he : s'.entries = s.entries) (hl : s'.logs = s.logs) (hh : s'.hist = s.hist) :
-    Clean c init s' p ↔ Clean c init s p := by
-  unfold Clean seqRun plog; rw [he, hl, hh]
 
 theorem inv_stepIdle {c : Cfg V E} {init : Pid → Entry V E} {s s' : Sys V E} (hi : Inv c init s) (t : Tid)
     (hpc : (s.thr t).pc = .idle) (hs : stepIdle s t = some s') : Inv c init s' := by
   unfold stepIdle at hs
-  -- a step that only changes `alock` and the thread table, keeping every pc
-  have frame : ∀ (a : Option Tid) (rest : List (Op V E)),
-      Inv c init { s with alock := a, thr := upd s.thr t ⟨rest, .idle⟩ } := by
-    intro a rest
-    have hpcs : ∀ t', ((upd s.thr t (⟨rest, .idle⟩ : Thread V E)) t').pc = (s.thr t').pc := by
-      intro t'
-      by_cases h : t' = t
-      · subst h; simp [hpc]
-      · rw [upd_other _ _ _ _ h]
-    refine ⟨hi.slFree, fun t0 hl => by rw [hpcs t0]; exact hi.slOwner t0 hl, hi.seenOk, ?_, ?_⟩
-    · intro hl
-      obtain ⟨h1, h2⟩ := hi.unlocked hl
-      exact ⟨fun t' => by rw [hpcs t']; exact h1 t', fun p => (clean_frame p rfl rfl rfl).2 (h2 p)⟩
-    · intro t0 hl
-      obtain ⟨h1, p, hp, h2, h3⟩ := hi.locked t0 hl
-      refine ⟨fun t' ht' => by rw [hpcs t']; exact h1 t' ht', p, by rw [hpcs t0]; exact hp,
-        fun q hq => (clean_frame q rfl rfl rfl).2 (h2 q hq), ?_⟩
-      rw [hpcs t0]; exact h3
+  have hu : inU (s.thr t).pc = false := by rw [hpc]; rfl
+  have hnS : holdsS (s.thr t).pc = false := by rw [hpc]; rfl
+  -- a step that keeps the subscription lock and does not make `t` a holder of it
+  have keepS : ∀ (th : Thread V E), holdsS th.pc = false →
+      ∀ t', holdsS ((upd s.thr t th) t').pc = true → s.slock = some t' := by
+    intro th hth t' ht'
+    by_cases htt : t' = t
+    · rw [htt] at ht'; simp only [upd_same] at ht'; rw [hth] at ht'; cases ht'
+    · rw [upd_other _ _ _ _ htt] at ht'; exact hi.slHeld t' ht'
   cases hprog : (s.thr t).prog with
   | nil => rw [hprog] at hs; cases hs
   | cons op rest =>
@@ -217,40 +307,53 @@ theorem inv_stepIdle {c : Cfg V E} {init : Pid → Entry V E} {s s' : Sys V E} (
     | accAcquire =>
       simp only at hs
       split at hs
-      · cases hs; exact frame _ _
+      · cases hs
+        exact inv_outside hi t (some t) s.dlock s.slock s.act ⟨rest, .idle⟩ hu rfl (keepS _ rfl) hi.actMono
       · cases hs
     | accRelease =>
       simp only at hs
       split at hs
-      · cases hs; exact frame _ _
+      · cases hs
+        exact inv_outside hi t none s.dlock s.slock s.act ⟨rest, .idle⟩ hu rfl (keepS _ rfl) hi.actMono
+      · cases hs
+    | activate k ps =>
+      simp only at hs
+      split at hs
+      · cases hs
+        exact inv_outside hi t s.alock (some t) s.slock s.act ⟨rest, .actD k ps⟩ hu rfl (keepS _ rfl) hi.actMono
       · cases hs
     | announce p ev ts =>
       simp only at hs
       split at hs
       · rename_i hl
         cases hs
-        obtain ⟨h1, h2⟩ := hi.unlocked hl
-        refine ⟨(fun h => by cases h), (fun t0 ht0 => by cases ht0; simp [pcS]; exact hi.slFree hl), hi.seenOk,
-          (fun h => by cases h), ?_⟩
-        intro t0 ht0
-        cases ht0
-        refine ⟨fun t' ht' => ?_, p, by simp [pcPid], fun q _ => (clean_frame q rfl rfl rfl).2 (h2 q), ?_⟩
-        · show ((upd s.thr t _) t').pc = _
-          rw [upd_other _ _ _ _ ht']; exact h1 t'
-        · simp only [upd_same, Mid]
-          have := h2 p
-          exact ⟨this.1, this.2⟩
+        have h2 := hi.unlocked hl
+        refine ⟨?_, hi.actMono, hi.seenOk, ?_, (fun h => by cases h), ?_⟩
+        · exact keepS _ rfl
+        · intro t' ht'
+          by_cases htt : t' = t
+          · rw [htt]
+          · simp only [upd_other _ _ _ _ htt] at ht'
+            have := hi.owner t' ht'
+            rw [hl] at this; cases this
+        · intro t0 ht0
+          cases ht0
+          simp only [upd_same]
+          refine ⟨rfl, fun q _ => (clean_frame q rfl rfl rfl rfl).2 (h2 q), ?_⟩
+          intro p' hp'
+          simp only [pcPid, Option.some.injEq] at hp'
+          subst hp'
+          simp only [Mid]
+          exact ⟨(h2 p).1, (h2 p).2⟩
       · cases hs
 
-set_option hygiene false in
-/-- the subscription lock is untouched by a step between two pcs outside `broadcast_event` -/
-macro "slk" : tactic => `(tactic| (
-  have hs := hi.slOwner t hlk
-  rw [hpc] at hs
-  simp [pcS] at hs
+/-- the new pc does not hold the subscription lock -/
+macro "noS" : tactic => `(tactic| (
+  intro h
+  simp only [setPc_pc] at h
   first
-  | (simp [pcS, hs]; done)
-  | (simp only [setPc_pc, setPc_slock]; split <;> simp [pcS, hs])))
+  | (simp [holdsS] at h; done)
+  | (split at h <;> simp [holdsS] at h)))
 
 theorem inv_step {c : Cfg V E} {init : Pid → Entry V E} {s s' : Sys V E} (hn : c.conns.Nodup)
     (hi : Inv c init s) (t : Tid) (hs : step c s t = some s') : Inv c init s' := by
@@ -259,27 +362,33 @@ theorem inv_step {c : Cfg V E} {init : Pid → Entry V E} {s s' : Sys V E} (hn :
   | idle => rw [hpc] at hs; exact inv_stepIdle hi t hpc hs
   | locked p ev ts =>
     rw [hpc] at hs; simp only [Option.some.injEq] at hs; subst hs
-    obtain ⟨hlk, hidle, hclean, hmid⟩ := inv_mid hi t p (by rw [hpc]; simp) (by rw [hpc]; rfl)
+    obtain ⟨hlk, hclean, hmid⟩ := inv_mid hi t p (by rw [hpc]; rfl)
     rw [hpc] at hmid
-    refine inv_inner hi t p hlk hidle hclean hlk rfl (by slk) (fun t' h => setPc_pc_other _ _ _ _ h) (fun q _ => rfl)
+    refine inv_inner hi t p hlk hclean hlk rfl rfl rfl
+      (slHeld_frame hi.slHeld t rfl (fun t' h => setPc_pc_other _ _ _ _ h) (by noS))
+      (fun t' h => setPc_pc_other _ _ _ _ h) (fun q _ => rfl)
       (fun k q _ => rfl) (by simp [pcPid]) (fun k d hd => hi.seenOk k p d hd) ?_
     simp only [setPc_pc, Mid] at hmid ⊢
     exact hmid
   | timed p now r =>
     rw [hpc] at hs
-    obtain ⟨hlk, hidle, hclean, hmid⟩ := inv_mid hi t p (by rw [hpc]; simp) (by rw [hpc]; rfl)
+    obtain ⟨hlk, hclean, hmid⟩ := inv_mid hi t p (by rw [hpc]; rfl)
     rw [hpc] at hmid
     simp only [Mid] at hmid
     cases r with
     | val v =>
       simp only [Option.some.injEq] at hs; subst hs
-      refine inv_inner hi t p hlk hidle hclean hlk rfl (by slk) (fun t' h => setPc_pc_other _ _ _ _ h) (fun q _ => rfl)
+      refine inv_inner hi t p hlk hclean hlk rfl rfl rfl
+        (slHeld_frame hi.slHeld t rfl (fun t' h => setPc_pc_other _ _ _ _ h) (by noS))
+        (fun t' h => setPc_pc_other _ _ _ _ h) (fun q _ => rfl)
         (fun k q _ => rfl) (by simp [pcPid]) (fun k d hd => hi.seenOk k p d hd) ?_
       simp only [setPc_pc, Mid]
       exact ⟨hmid.1, by rw [hmid.1], hmid.2⟩
     | err x =>
       simp only [Option.some.injEq] at hs; subst hs
-      refine inv_inner hi t p hlk hidle hclean hlk rfl (by slk) (fun t' h => setPc_pc_other _ _ _ _ h) (fun q _ => rfl)
+      refine inv_inner hi t p hlk hclean hlk rfl rfl rfl
+        (slHeld_frame hi.slHeld t rfl (fun t' h => setPc_pc_other _ _ _ _ h) (by noS))
+        (fun t' h => setPc_pc_other _ _ _ _ h) (fun q _ => rfl)
         (fun k q _ => rfl) (by simp only [setPc_pc]; split <;> simp [pcPid]) (fun k d hd => hi.seenOk k p d hd) ?_
       simp only [setPc_pc, setPc_entries]
       rw [hmid.1]
@@ -293,20 +402,24 @@ theorem inv_step {c : Cfg V E} {init : Pid → Entry V E} {s s' : Sys V E} (hn :
         exact ⟨trivial, by simp [emits, he], hmid.2⟩
   | compared p now v chg =>
     rw [hpc] at hs; simp only [Option.some.injEq] at hs; subst hs
-    obtain ⟨hlk, hidle, hclean, hmid⟩ := inv_mid hi t p (by rw [hpc]; simp) (by rw [hpc]; rfl)
+    obtain ⟨hlk, hclean, hmid⟩ := inv_mid hi t p (by rw [hpc]; rfl)
     rw [hpc] at hmid
     simp only [Mid] at hmid
-    refine inv_inner hi t p hlk hidle hclean hlk rfl (by slk) (fun t' h => setPc_pc_other _ _ _ _ h)
+    refine inv_inner hi t p hlk hclean hlk rfl rfl rfl
+      (slHeld_frame hi.slHeld t rfl (fun t' h => setPc_pc_other _ _ _ _ h) (by noS))
+      (fun t' h => setPc_pc_other _ _ _ _ h)
       (fun q hq => setEntry_other _ _ _ _ hq) (fun k q _ => rfl) (by simp [pcPid])
       (fun k d hd => hi.seenOk k p d hd) ?_
     simp only [setPc_pc, setPc_entries, setEntry_same, Mid]
     exact ⟨by rw [hmid.1], hmid.2.1, hmid.2.2⟩
   | stored p now v chg =>
     rw [hpc] at hs; simp only [Option.some.injEq] at hs; subst hs
-    obtain ⟨hlk, hidle, hclean, hmid⟩ := inv_mid hi t p (by rw [hpc]; simp) (by rw [hpc]; rfl)
+    obtain ⟨hlk, hclean, hmid⟩ := inv_mid hi t p (by rw [hpc]; rfl)
     rw [hpc] at hmid
     simp only [Mid] at hmid
-    refine inv_inner hi t p hlk hidle hclean hlk rfl (by slk) (fun t' h => setPc_pc_other _ _ _ _ h) (fun q _ => rfl)
+    refine inv_inner hi t p hlk hclean hlk rfl rfl rfl
+      (slHeld_frame hi.slHeld t rfl (fun t' h => setPc_pc_other _ _ _ _ h) (by noS))
+      (fun t' h => setPc_pc_other _ _ _ _ h) (fun q _ => rfl)
       (fun k q _ => rfl) (by simp only [setPc_pc]; split <;> simp [pcPid]) (fun k d hd => hi.seenOk k p d hd) ?_
     simp only [setPc_pc, setPc_entries]
     obtain ⟨h1, h2, h3⟩ := hmid
@@ -332,66 +445,82 @@ theorem inv_step {c : Cfg V E} {init : Pid → Entry V E} {s s' : Sys V E} (hn :
       exact ⟨trivial, hd, h3⟩
   | go p now r =>
     rw [hpc] at hs; simp only [Option.some.injEq] at hs; subst hs
-    obtain ⟨hlk, hidle, hclean, hmid⟩ := inv_mid hi t p (by rw [hpc]; simp) (by rw [hpc]; rfl)
+    obtain ⟨hlk, hclean, hmid⟩ := inv_mid hi t p (by rw [hpc]; rfl)
     rw [hpc] at hmid
     simp only [Mid] at hmid
-    refine inv_inner hi t p hlk hidle hclean hlk rfl (by slk) (fun t' h => setPc_pc_other _ _ _ _ h)
+    refine inv_inner hi t p hlk hclean hlk rfl rfl rfl
+      (slHeld_frame hi.slHeld t rfl (fun t' h => setPc_pc_other _ _ _ _ h) (by noS))
+      (fun t' h => setPc_pc_other _ _ _ _ h)
       (fun q hq => setEntry_other _ _ _ _ hq) (fun k q _ => rfl) (by simp [pcPid])
       (fun k d hd => hi.seenOk k p d hd) ?_
     simp only [setPc_pc, setPc_entries, setEntry_same, Mid]
     exact ⟨by rw [hmid.1], hmid.2.1, hmid.2.2⟩
   | stamped p now r =>
     rw [hpc] at hs; simp only [Option.some.injEq] at hs; subst hs
-    obtain ⟨hlk, hidle, hclean, hmid⟩ := inv_mid hi t p (by rw [hpc]; simp) (by rw [hpc]; rfl)
+    obtain ⟨hlk, hclean, hmid⟩ := inv_mid hi t p (by rw [hpc]; rfl)
     rw [hpc] at hmid
     simp only [Mid] at hmid
-    refine inv_inner hi t p hlk hidle hclean hlk rfl (by slk) (fun t' h => setPc_pc_other _ _ _ _ h)
+    refine inv_inner hi t p hlk hclean hlk rfl rfl rfl
+      (slHeld_frame hi.slHeld t rfl (fun t' h => setPc_pc_other _ _ _ _ h) (by noS))
+      (fun t' h => setPc_pc_other _ _ _ _ h)
       (fun q hq => setEntry_other _ _ _ _ hq) (fun k q _ => rfl) (by simp [pcPid])
       (fun k d hd => hi.seenOk k p d hd) ?_
     simp only [setPc_pc, setPc_entries, setEntry_same, Mid]
     exact ⟨by rw [hmid.1]; rfl, hmid.2.1, hmid.2.2⟩
   | errset p now r =>
     rw [hpc] at hs; simp only [Option.some.injEq] at hs; subst hs
-    obtain ⟨hlk, hidle, hclean, hmid⟩ := inv_mid hi t p (by rw [hpc]; simp) (by rw [hpc]; rfl)
+    obtain ⟨hlk, hclean, hmid⟩ := inv_mid hi t p (by rw [hpc]; rfl)
     rw [hpc] at hmid
     simp only [Mid] at hmid
-    refine inv_inner hi t p hlk hidle hclean hlk rfl (by slk) (fun t' h => setPc_pc_other _ _ _ _ h) (fun q _ => rfl)
+    refine inv_inner hi t p hlk hclean hlk rfl rfl rfl
+      (slHeld_frame hi.slHeld t rfl (fun t' h => setPc_pc_other _ _ _ _ h) (by noS))
+      (fun t' h => setPc_pc_other _ _ _ _ h) (fun q _ => rfl)
       (fun k q _ => rfl) (by simp [pcPid]) (fun k d hd => hi.seenOk k p d hd) ?_
     simp only [setPc_pc, setPc_entries, Mid]
     exact ⟨hmid.1, hmid.2.1, trivial, hmid.2.2⟩
   | built p now r m =>
     rw [hpc] at hs
-    obtain ⟨hlk, hidle, hclean, hmid⟩ := inv_mid hi t p (by rw [hpc]; simp) (by rw [hpc]; rfl)
+    obtain ⟨hlk, hclean, hmid⟩ := inv_mid hi t p (by rw [hpc]; rfl)
     rw [hpc] at hmid
     simp only [Mid] at hmid
-    have hs0 := hi.slOwner t hlk
-    rw [hpc] at hs0
-    simp [pcS] at hs0
-    simp only [hs0, if_true, Option.some.injEq] at hs; subst hs
-    refine inv_inner hi t p hlk hidle hclean hlk rfl (by simp [pcS]) (fun t' h => setPc_pc_other _ _ _ _ h)
-      (fun q _ => rfl) (fun k q _ => rfl) (by simp [pcS, pcPid]) (fun k d hd => hi.seenOk k p d hd) ?_
-    simp only [setPc_pc, setPc_entries, Mid]
-    exact ⟨hmid.1, hmid.2.1, hmid.2.2.1, [], by simp, by simp, hmid.2.2.2⟩
+    simp only at hs
+    split at hs
+    · rename_i hfree
+      simp only [Option.some.injEq] at hs; subst hs
+      refine inv_inner hi t p hlk hclean hlk rfl rfl rfl
+        (slHeld_acq hi.slHeld t hfree rfl (fun t' h => setPc_pc_other _ _ _ _ h))
+        (fun t' h => setPc_pc_other _ _ _ _ h)
+        (fun q _ => rfl) (fun k q _ => rfl) (by simp [pcPid]) (fun k d hd => hi.seenOk k p d hd) ?_
+      simp only [setPc_pc, setPc_entries, Mid]
+      refine ⟨hmid.1, hmid.2.1, hmid.2.2.1, [], ?_, ?_, by simp, ?_⟩
+      · simp only [List.nil_append, listeners]; exact List.Pairwise.filter _ hn
+      · intro k hk
+        simp only [List.nil_append, listeners, List.mem_filter]
+        exact ⟨hk.1, hi.actMono k p hk.2.1⟩
+      · intro k _ hk; exact hmid.2.2.2 k hk
+    · cases hs
   | sending p now r m rest =>
     rw [hpc] at hs
-    obtain ⟨hlk, hidle, hclean, hmid⟩ := inv_mid hi t p (by rw [hpc]; simp) (by rw [hpc]; rfl)
+    obtain ⟨hlk, hclean, hmid⟩ := inv_mid hi t p (by rw [hpc]; rfl)
     rw [hpc] at hmid
     simp only [Mid] at hmid
-    obtain ⟨h1, h2, h3, done, h4, h5, h6⟩ := hmid
+    obtain ⟨h1, h2, h3, done, hnd, hall, h5, h6⟩ := hmid
+    have hown : s.slock = some t := hi.slHeld t (by rw [hpc]; rfl)
     cases rest with
     | nil =>
       simp only [Option.some.injEq] at hs; subst hs
-      refine inv_inner hi t p hlk hidle hclean hlk rfl (by slk) (fun t' h => setPc_pc_other _ _ _ _ h) (fun q _ => rfl)
+      refine inv_inner hi t p hlk hclean hlk rfl rfl rfl
+        (slHeld_rel hi.slHeld t hown (fun t' h => setPc_pc_other _ _ _ _ h) (by simp [holdsS]))
+        (fun t' h => setPc_pc_other _ _ _ _ h) (fun q _ => rfl)
         (fun k q _ => rfl) (by simp [pcPid]) (fun k d hd => hi.seenOk k p d hd) ?_
       simp only [setPc_pc, setPc_entries, Mid, announceR_go _ _ _ _ h2, plog_setPc]
       refine ⟨h1, fun k hk => ?_⟩
-      simp only [List.append_nil] at h4
-      rw [h4] at hk
+      have hkd := hall k hk
+      simp only [List.append_nil] at hkd
       show plog s k p = _
-      rw [h5 k hk, h3, h1]; rfl
+      rw [h5 k hkd hk, h3, h1]; rfl
     | cons k rest =>
       simp only [Option.some.injEq] at hs; subst hs
-      have hnd : (done ++ k :: rest).Nodup := h4 ▸ hn
       have hk_done : k ∉ done := by
         intro hk
         have := (List.nodup_append.1 hnd).2.2 k hk k (by simp)
@@ -399,7 +528,9 @@ theorem inv_step {c : Cfg V E} {init : Pid → Entry V E} {s s' : Sys V E} (hn :
       have hk_rest : k ∉ rest := by
         have := (List.nodup_append.1 hnd).2.1
         exact (List.nodup_cons.1 this).1
-      refine inv_inner hi t p hlk hidle hclean hlk rfl (by slk) (fun t' h => setPc_pc_other _ _ _ _ h) (fun q _ => rfl)
+      refine inv_inner hi t p hlk hclean hlk rfl rfl rfl
+        (slHeld_frame hi.slHeld t rfl (fun t' h => setPc_pc_other _ _ _ _ h) (fun _ => by rw [hpc]; rfl))
+        (fun t' h => setPc_pc_other _ _ _ _ h) (fun q _ => rfl)
         (fun k' q hq => deliver_other_param _ _ _ _ _ _ hq) (by simp [pcPid]) ?_ ?_
       · intro k' d hd
         simp only [setPc_logs] at hd
@@ -414,52 +545,171 @@ theorem inv_step {c : Cfg V E} {init : Pid → Entry V E} {s s' : Sys V E} (hn :
         · rw [deliver_other_conn _ _ _ _ _ _ hk] at hd
           exact hi.seenOk k' p d hd
       · simp only [setPc_pc, setPc_entries, deliver_entries, Mid]
-        refine ⟨h1, h2, h3, done ++ [k], by simp [h4], ?_, ?_⟩
-        · intro k' hk'
+        refine ⟨h1, h2, h3, done ++ [k], by simpa using hnd, fun k' hk' => by simpa using hall k' hk', ?_, ?_⟩
+        · intro k' hk' hst
           simp only [List.mem_append, List.mem_singleton] at hk'
           rcases hk' with hk' | hk'
           · have hne : k' ≠ k := fun h => hk_done (h ▸ hk')
-            have := h5 k' hk'
+            have := h5 k' hk' hst
             simp only [plog, setPc_logs] at this ⊢
             rw [deliver_other_conn _ _ _ _ _ _ hne]; exact this
           · subst hk'
-            have := h6 k' (by simp)
+            have := h6 k' (by simp) hst
             simp only [plog, setPc_logs, deliver_same, List.map_append, List.map_cons, List.map_nil] at this ⊢
             rw [this]
-        · intro k' hk'
+        · intro k' hk' hst
           have hne : k' ≠ k := fun h => hk_rest (h ▸ hk')
-          have := h6 k' (by simp [hk'])
+          have := h6 k' (by simp [hk']) hst
           simp only [plog, setPc_logs] at this ⊢
           rw [deliver_other_conn _ _ _ _ _ _ hne]; exact this
   | leaving p now r =>
     rw [hpc] at hs; simp only [Option.some.injEq] at hs; subst hs
-    obtain ⟨hlk, hidle, hclean, hmid⟩ := inv_mid hi t p (by rw [hpc]; simp) (by rw [hpc]; rfl)
+    obtain ⟨hlk, hclean, hmid⟩ := inv_mid hi t p (by rw [hpc]; rfl)
     rw [hpc] at hmid
     simp only [Mid] at hmid
-    have hs0 := hi.slOwner t hlk
-    rw [hpc] at hs0
-    simp [pcS] at hs0
-    refine ⟨fun _ => hs0, (fun t0 h => by cases h), hi.seenOk, ?_, fun t0 h => by cases h⟩
-    intro _
-    constructor
-    · intro t'
+    refine ⟨slHeld_frame hi.slHeld t rfl (fun t' h => setPc_pc_other _ _ _ _ h) (by noS), hi.actMono, hi.seenOk,
+      ?_, ?_, fun t0 h => by cases h⟩
+    · intro t' ht'
       by_cases h : t' = t
-      · subst h; simp
-      · rw [setPc_pc_other _ _ _ _ h]; exact hidle t' h
-    · intro q
+      · rw [h] at ht'; simp [inU] at ht'
+      · rw [setPc_pc_other _ _ _ _ h] at ht'
+        have := hi.owner t' ht'
+        rw [hlk] at this
+        exact absurd (Option.some.inj this).symm h
+    · intro _ q
       by_cases hq : q = p
       · subst hq
-        unfold Clean seqRun plog
-        simp only [setPc_entries, setPc_logs, setPc_hist, upd_same, runR_snoc]
+        unfold Clean Stat seqRun plog
+        simp only [setPc_entries, setPc_logs, setPc_hist, setPc_snapped, upd_same, runR_snoc]
         exact ⟨hmid.1, hmid.2⟩
       · have := hclean q hq
-        unfold Clean seqRun plog at this ⊢
-        simp only [setPc_entries, setPc_logs, setPc_hist, upd_other _ _ _ _ hq]
+        unfold Clean Stat seqRun plog at this ⊢
+        simp only [setPc_entries, setPc_logs, setPc_hist, setPc_snapped, upd_other _ _ _ _ hq]
         exact this
+  | actD k ps =>
+    rw [hpc] at hs
+    simp only at hs
+    split at hs
+    · rename_i hfree
+      simp only [Option.some.injEq] at hs; subst hs
+      refine inv_outside hi t s.alock s.dlock (some t) s.act ⟨(s.thr t).prog, .actS k ps⟩ (by rw [hpc]; rfl) rfl ?_
+        hi.actMono
+      intro t' ht'
+      by_cases htt : t' = t
+      · rw [htt]
+      · rw [upd_other _ _ _ _ htt] at ht'
+        have := hi.slHeld t' ht'
+        rw [hfree] at this; cases this
+    · cases hs
+  | actS k ps =>
+    rw [hpc] at hs; simp only [Option.some.injEq] at hs; subst hs
+    have hown : s.slock = some t := hi.slHeld t (by rw [hpc]; rfl)
+    refine inv_outside hi t s.alock s.dlock none (subscribe s.act k ps) ⟨(s.thr t).prog, .actR k ps⟩ (by rw [hpc]; rfl)
+      rfl ?_ ?_
+    · intro t' ht'
+      by_cases htt : t' = t
+      · rw [htt] at ht'; simp [holdsS] at ht'
+      · rw [upd_other _ _ _ _ htt] at ht'
+        have := hi.slHeld t' ht'
+        rw [hown] at this
+        exact absurd (Option.some.inj this).symm htt
+    · intro k' p h
+      simp [subscribe, hi.actMono k' p h]
+  | actR k ps =>
+    rw [hpc] at hs
+    simp only at hs
+    split at hs
+    · rename_i hl
+      simp only [Option.some.injEq] at hs; subst hs
+      have h2 := hi.unlocked hl
+      refine ⟨slHeld_frame hi.slHeld t rfl (fun t' h => setPc_pc_other _ _ _ _ h) (by noS), hi.actMono, hi.seenOk,
+        ?_, (fun h => by cases h), ?_⟩
+      · intro t' ht'
+        by_cases htt : t' = t
+        · rw [htt]; rfl
+        · rw [setPc_pc_other _ _ _ _ htt] at ht'
+          have := hi.owner t' ht'
+          rw [hl] at this; cases this
+      · intro t0 ht0
+        cases ht0
+        simp only [setPc_pc]
+        exact ⟨rfl, fun q _ => (clean_frame q rfl rfl rfl rfl).2 (h2 q), fun p' hp' => by simp [pcPid] at hp'⟩
+    · cases hs
+  | snap k rest =>
+    rw [hpc] at hs
+    have hlk : s.lock = some t := hi.owner t (by rw [hpc]; rfl)
+    obtain ⟨_, hcl, _⟩ := hi.locked t hlk
+    have hclean : ∀ q, Clean c init s q := fun q => hcl q (by rw [hpc]; simp [pcPid])
+    cases rest with
+    | nil =>
+      simp only [Option.some.injEq] at hs; subst hs
+      refine ⟨slHeld_frame hi.slHeld t rfl (fun t' h => setPc_pc_other _ _ _ _ h) (by noS), hi.actMono, hi.seenOk,
+        ?_, fun _ q => (clean_frame q rfl rfl rfl rfl).2 (hclean q), fun t0 h => by cases h⟩
+      intro t' ht'
+      by_cases h : t' = t
+      · rw [h] at ht'; simp [inU] at ht'
+      · rw [setPc_pc_other _ _ _ _ h] at ht'
+        have := hi.owner t' ht'
+        rw [hlk] at this
+        exact absurd (Option.some.inj this).symm h
+    | cons p rest =>
+      simp only [Option.some.injEq] at hs; subst hs
+      have hsn : ∀ k' q, ((s.deliver k p (mkMsg (s.entries p))).markSnapped k p).snapped k' q =
+          (s.snapped k' q || (k' == k && q == p)) := fun _ _ => rfl
+      have hlogs : ((s.deliver k p (mkMsg (s.entries p))).markSnapped k p).logs = (s.deliver k p (mkMsg (s.entries p))).logs :=
+        rfl
+      refine ⟨slHeld_frame hi.slHeld t rfl (fun t' h => setPc_pc_other _ _ _ _ h) (by noS), hi.actMono, ?_, ?_,
+        (fun h => by rw [show (((s.deliver k p (mkMsg (s.entries p))).markSnapped k p).setPc t (.snap k rest)).lock = s.lock
+          from rfl, hlk] at h; cases h), ?_⟩
+      · intro k' q d hd
+        simp only [setPc_logs, hlogs] at hd
+        by_cases hq : q = p
+        · subst hq
+          by_cases hk : k' = k
+          · subst hk
+            rw [deliver_same, List.mem_append] at hd
+            rcases hd with hd | hd
+            · exact hi.seenOk _ _ d hd
+            · simp only [List.mem_singleton] at hd
+              subst hd; rfl
+          · rw [deliver_other_conn _ _ _ _ _ _ hk] at hd
+            exact hi.seenOk k' q d hd
+        · rw [deliver_other_param _ _ _ _ _ _ hq] at hd
+          exact hi.seenOk k' q d hd
+      · intro t' ht'
+        show s.lock = some t'
+        by_cases htt : t' = t
+        · rw [htt]; exact hlk
+        · rw [setPc_pc_other _ _ _ _ htt] at ht'
+          exact hi.owner t' ht'
+      · intro t0 ht0
+        have : s.lock = some t0 := ht0
+        rw [hlk] at this; cases this
+        simp only [setPc_pc]
+        refine ⟨rfl, fun q _ => ?_, fun p' hp' => by simp [pcPid] at hp'⟩
+        have hq := hclean q
+        unfold Clean Stat seqRun plog at hq ⊢
+        refine ⟨hq.1, fun k' hk' => ?_⟩
+        simp only [setPc_snapped, hsn, Bool.or_eq_false_iff] at hk'
+        have hold := hq.2 k' ⟨hk'.1, hk'.2.1, hk'.2.2.1⟩
+        simp only [setPc_logs, hlogs]
+        by_cases hqp : q = p
+        · subst hqp
+          have hne : k' ≠ k := by
+            intro h; have := hk'.2.2.2; simp [h] at this
+          rw [deliver_other_conn _ _ _ _ _ _ hne]; exact hold
+        · rw [deliver_other_param _ _ _ _ _ _ hqp]; exact hold
+  | actE =>
+    rw [hpc] at hs; simp only [Option.some.injEq] at hs; subst hs
+    refine inv_outside hi t s.alock none s.slock s.act ⟨(s.thr t).prog, .idle⟩ (by rw [hpc]; rfl) rfl ?_ hi.actMono
+    intro t' ht'
+    by_cases htt : t' = t
+    · rw [htt] at ht'; simp [holdsS] at ht'
+    · rw [upd_other _ _ _ _ htt] at ht'; exact hi.slHeld t' ht'
 
 /-- the invariant holds in every reachable state -/
 theorem inv_reach {c : Cfg V E} {init : Pid → Entry V E} {progs : Tid → List (Op V E)} {clock : Int}
-    {s : Sys V E} (hn : c.conns.Nodup) (hr : Reach c (Sys.init init progs clock) s) : Inv c init s := by
+    {s : Sys V E} (hn : c.conns.Nodup) (hr : Reach c (Sys.init init progs clock c.act0) s) : Inv c init s := by
   induction hr with
   | start => exact inv_init c init progs clock
   | next t _ hs ih => exact inv_step hn ih t hs
@@ -484,6 +734,7 @@ def annR (o : Oracle V E) : List (Op V E) → List (Pid × VE V E)
   | .announce p ev _ :: rest => (p, resolve o ev) :: annR o rest
   | .accAcquire :: rest => annR o rest
   | .accRelease :: rest => annR o rest
+  | .activate _ _ :: rest => annR o rest
 
 /-- the call a thread is in the middle of -/
 def inflight (o : Oracle V E) : PC V E → List (Pid × VE V E)
@@ -498,6 +749,11 @@ def inflight (o : Oracle V E) : PC V E → List (Pid × VE V E)
   | .built p _ r _ => [(p, r)]
   | .sending p _ r _ _ => [(p, r)]
   | .leaving p _ r => [(p, r)]
+  | .actD _ _ => []
+  | .actS _ _ => []
+  | .actR _ _ => []
+  | .snap _ _ => []
+  | .actE => []
 
 /-- the completed calls of thread `t`, in the order of the global history -/
 def doneBy (t : Tid) (g : List (GItem V E)) : List (Pid × VE V E) :=
@@ -512,7 +768,7 @@ structure Shuf (c : Cfg V E) (progs : Tid → List (Op V E)) (s : Sys V E) : Pro
   proj : ∀ p, s.hist p = onParam p s.ghist
 
 theorem shuf_init (c : Cfg V E) (init : Pid → Entry V E) (progs : Tid → List (Op V E)) (clock : Int) :
-    Shuf c progs (Sys.init init progs clock) :=
+    Shuf c progs (Sys.init init progs clock c.act0) :=
   ⟨fun t => by simp [Sys.init, doneBy, inflight], fun p => by simp [Sys.init, onParam]⟩
 
 theorem shuf_frame {c : Cfg V E} {progs : Tid → List (Op V E)} {s s' : Sys V E} (h : Shuf c progs s) (t : Tid)
@@ -555,6 +811,12 @@ theorem shuf_step {c : Cfg V E} {progs : Tid → List (Op V E)} {s s' : Sys V E}
           exact shuf_frame h t rfl rfl (fun t' ht' => upd_other _ _ _ _ ht') (by simp [hpc, hprog, annR, inflight])
         · cases hs
       | announce p ev ts =>
+        simp only at hs
+        split at hs
+        · cases hs
+          exact shuf_frame h t rfl rfl (fun t' ht' => upd_other _ _ _ _ ht') (by simp [hpc, hprog, annR, inflight])
+        · cases hs
+      | activate k ps =>
         simp only at hs
         split at hs
         · cases hs
@@ -625,8 +887,38 @@ theorem shuf_step {c : Cfg V E} {progs : Tid → List (Op V E)} {s s' : Sys V E}
       · have hne : (p == q) = false := by simpa using (fun h => hq h.symm)
         simp [onParam, List.filter_append, hne, upd_other _ _ _ _ hq, h.proj q]
 
+  | actD k ps =>
+    rw [hpc] at hs
+    simp only at hs
+    split at hs
+    · simp only [Option.some.injEq] at hs; subst hs
+      exact shuf_frame h t rfl rfl (fun t' ht' => thr_setPc_other _ _ _ _ ht') (by rw [thr_setPc_same]; simp [hpc, inflight])
+    · cases hs
+  | actS k ps =>
+    rw [hpc] at hs; simp only [Option.some.injEq] at hs; subst hs
+    exact shuf_frame h t rfl rfl (fun t' ht' => thr_setPc_other _ _ _ _ ht') (by rw [thr_setPc_same]; simp [hpc, inflight])
+  | actR k ps =>
+    rw [hpc] at hs
+    simp only at hs
+    split at hs
+    · simp only [Option.some.injEq] at hs; subst hs
+      exact shuf_frame h t rfl rfl (fun t' ht' => thr_setPc_other _ _ _ _ ht') (by rw [thr_setPc_same]; simp [hpc, inflight])
+    · cases hs
+  | snap k rest =>
+    rw [hpc] at hs
+    cases rest with
+    | nil =>
+      simp only [Option.some.injEq] at hs; subst hs
+      exact shuf_frame h t rfl rfl (fun t' ht' => thr_setPc_other _ _ _ _ ht') (by rw [thr_setPc_same]; simp [hpc, inflight])
+    | cons p rest =>
+      simp only [Option.some.injEq] at hs; subst hs
+      exact shuf_frame h t rfl rfl (fun t' ht' => thr_setPc_other _ _ _ _ ht') (by rw [thr_setPc_same]; simp [hpc, inflight])
+  | actE =>
+    rw [hpc] at hs; simp only [Option.some.injEq] at hs; subst hs
+    exact shuf_frame h t rfl rfl (fun t' ht' => thr_setPc_other _ _ _ _ ht') (by rw [thr_setPc_same]; simp [hpc, inflight])
+
 theorem shuf_reach {c : Cfg V E} {init : Pid → Entry V E} {progs : Tid → List (Op V E)} {clock : Int}
-    {s : Sys V E} (hr : Reach c (Sys.init init progs clock) s) : Shuf c progs s := by
+    {s : Sys V E} (hr : Reach c (Sys.init init progs clock c.act0) s) : Shuf c progs s := by
   induction hr with
   | start => exact shuf_init c init progs clock
   | next t _ hs ih => exact shuf_step ih t hs
